@@ -178,6 +178,37 @@ SINGLE = ["k_unsbx_ctx", "k_sbx_ctx", "k_unsbx_noctx", "k_sbx_noctx", "k_roundtr
           "k_load_ptr", "k_copy_ptr_cell", "k_store_ptr_arr", "k_load_ptr_arr", "k_store_struct", "k_load_struct", "k_free", "k_free_vol"]
 
 
+def check_null_paths(ctx, k, log, pb):
+    base = ctx.sandbox_base(log)
+    size = 1 << log
+    if k == "k_malloc_rep":
+        count = ctx.sym("count", 32)
+        ctx.assume(z3.UGE(count, 1), z3.ULE(count, 64))
+        paths = ctx.run(k, [base, count])
+        for q in paths:
+            if q.status == "ret":
+                env = [v for (t, v) in (q.user.get("env") or []) if t == 0x100]
+                rep = z3.Extract(8 * pb - 1, 0, env[0]) if env else None
+                ctx.require(q, z3.And(z3.Implies(rep == 0, q.ret == 0), z3.Implies(rep != 0, q.ret == base + zext(rep, 64))) if env else z3.BoolVal(False),
+                            "an allocator result of 0 (out of memory) is the null pointer, any other representation is base + representation")
+        ctx.only(paths, "ret", "abort")
+        ctx.expect(paths, ret=1)
+    else:
+        p = ctx.sym("p", 64)
+        ctx.assume(z3.Or(p == 0, z3.And(z3.UGT(p, base), z3.ULT(p - base, BV(size, 64)))))
+        paths = ctx.run(k, [base, p])
+        for q in paths:
+            if q.status == "ret":
+                lg = [e for e in (q.user.get("log") or []) if e[0] == 9]
+                bvx = lambda v: v if not isinstance(v, int) else BV(v, 64)
+                rp = rep_of(p, base, 8 * pb)
+                ctx.require(q, z3.And(z3.BoolVal(len(lg) == 2), bvx(lg[0][1]) == 0, bvx(lg[0][2]) == rp, bvx(lg[1][1]) == rp, bvx(lg[1][2]) == 0, q.ret == 0)
+                            if len(lg) == 2 else z3.BoolVal(False),
+                            "a literal nullptr argument reaches the guest as 0 in every position; a null result comes back as null")
+        ctx.only(paths, "ret")
+        ctx.expect(paths, ret=1)
+
+
 # ------------------------------------------------------------------ multi-instance
 def bm_pre(ctx):
     size = 1 << 32
@@ -335,6 +366,8 @@ def jobs(tier, seed):
         for gi, grp in enumerate(C.chunks(names, 6)):
             src = '#include "verif_sandbox.hpp"\nusing S = %s;\n#include "C04_kernels.inc"\n' % sbx
             out.append(Job("C04_%s_%d" % (sbx, gi), src, [dict(name="%s %s" % (sbx, k), fn=check_single, kw=dict(k=k, log=log, pb=pb)) for k in grp]))
+        src = '#include "verif_sandbox.hpp"\nusing S = %s;\n#include "C04_kernels.inc"\n' % sbx
+        out.append(Job("C04_%s_null" % sbx, src, [dict(name="%s %s" % (sbx, k), fn=check_null_paths, kw=dict(k=k, log=log, pb=pb)) for k in ("k_malloc_rep", "k_inv_nullptr_literal")], native=False))
     src = '#include "C04_bm.inc"\n'
     for k in ("k_bm_store_load", "k_bm_load", "k_bm_store_null_load"):
         out.append(Job("C04_BM_" + k, src, [dict(name="BM " + k, fn=check_bm, kw=dict(k=k))], unwind=200))
